@@ -1,11 +1,11 @@
 package main
 
 import (
-	"runtime"
 	"context"
 	"errors"
 	"fmt"
 	"math/rand"
+	"runtime"
 	"strings"
 	"time"
 
@@ -285,6 +285,14 @@ func (a sresult) same(b sresult) bool {
 type liveStore struct {
 	s       store.Store
 	streams []store.Stream
+	closed  map[int]bool
+}
+
+// countPumps counts the goroutines running a watcher stream's pump (pkg/store newStream).
+func countPumps() int {
+	buf := make([]byte, 1<<20)
+	n := runtime.Stack(buf, true)
+	return strings.Count(string(buf[:n]), "pkg/store.newStream.func")
 }
 
 func anyOrNil(m types.Map) any {
@@ -368,7 +376,26 @@ func (ls *liveStore) apply(o sop) (res sresult) {
 		// pending when Close landed; the model accepts any prefix of them. The stream must end.
 		if o.widx < len(ls.streams) {
 			st := ls.streams[o.widx]
+			first := !ls.closed[o.widx]
+			if ls.closed == nil {
+				ls.closed = map[int]bool{}
+			}
+			ls.closed[o.widx] = true
+			before := countPumps()
 			_ = st.Close(ctx)
+			if first && before > 0 {
+				// the stream must end by itself, whatever backlog nobody reads: its pump goroutine goes away
+				ended := false
+				for dl := time.Now().Add(3 * time.Second); time.Now().Before(dl); time.Sleep(200 * time.Microsecond) {
+					if countPumps() < before {
+						ended = true
+						break
+					}
+				}
+				if !ended {
+					return sresult{kind: "RCrash", err: "the stream's pump goroutine is still running 3s after Close with nobody reading"}
+				}
+			}
 			evs, ended := drainToEnd(st)
 			if !ended {
 				return sresult{kind: "RCrash", err: "the stream did not end within 3s after Close"}
